@@ -35,7 +35,8 @@ Record world := {
   w_maps : list mapping;     (* port mappings, in index (= creation) order *)
   w_codes : list code;       (* connection codes *)
   w_doms : list domain;      (* HTTP domain mappings *)
-  w_online : list cid;       (* clients with a registered, authenticated control connection *)
+  w_online : list cid;       (* ClientRegistry.clientIDMap: clients that resolve to an authenticated control connection *)
+  w_bind : list (N * cid);   (* ClientRegistry.connMap: long-lived connection index -> the ClientID it carries NOW *)
   w_nm : N; w_nc : N; w_nd : N   (* next fresh object indices *)
 }.
 
@@ -44,16 +45,25 @@ Inductive connkind :=
 | KUnknown                (* a connection id the session has never seen *)
 | KFresh                  (* created, no handshake: no control connection *)
 | KPending                (* handshake phase 1 only: control connection registered, ClientID = 0, not authenticated *)
-| KAuth (c : cid).        (* the control connection client c authenticated on *)
+| KConn (i : N).          (* long-lived connection #i; whom it speaks for is whatever the registry says at dispatch time *)
 
 Fixpoint memN (x : N) (l : list N) : bool :=
   match l with [] => false | y :: l' => (x =? y) || memN x l' end.
 
 (* control_connection_mgr.go GetClientIDByConnectionID / handlers' getClientID / getClientIDFromConnection *)
+Fixpoint lookup_bind (i : N) (l : list (N * cid)) : option cid :=
+  match l with [] => None | (j, c) :: l' => if j =? i then Some c else lookup_bind i l' end.
+Fixpoint remove_bind (i : N) (l : list (N * cid)) : list (N * cid) :=
+  match l with [] => [] | (j, c) :: l' => if j =? i then remove_bind i l' else (j, c) :: remove_bind i l' end.
 Definition conn_identity (w : world) (k : connkind) : cid :=
-  match k with KAuth c => if memN c (w_online w) then c else 0 | _ => 0 end.
+  match k with KConn i => match lookup_bind i (w_bind w) with Some c => c | None => 0 end | _ => 0 end.
 Definition has_ctrl (w : world) (k : connkind) : bool :=
-  match k with KPending => true | KAuth c => memN c (w_online w) | _ => false end.
+  match k with
+  | KPending => true
+  | KConn i => match lookup_bind i (w_bind w) with Some _ => true | None => false end
+  | _ => false end.
+Definition unbind_k (k : connkind) (l : list (N * cid)) : list (N * cid) :=
+  match k with KConn i => remove_bind i l | _ => l end.
 
 (* the body of a command after JSON parsing, abstracted to what the handlers read *)
 Record cmd := {
@@ -133,11 +143,12 @@ Definition map_party_ok (p : party) (a : cid) (m : mapping) : bool :=
   end.
 
 Definition with_maps (w : world) (l : list mapping) : world :=
-  {| w_maps := l; w_codes := w_codes w; w_doms := w_doms w; w_online := w_online w; w_nm := w_nm w; w_nc := w_nc w; w_nd := w_nd w |}.
+  {| w_maps := l; w_codes := w_codes w; w_doms := w_doms w; w_online := w_online w; w_bind := w_bind w; w_nm := w_nm w; w_nc := w_nc w; w_nd := w_nd w |}.
 Definition with_doms (w : world) (l : list domain) : world :=
-  {| w_maps := w_maps w; w_codes := w_codes w; w_doms := l; w_online := w_online w; w_nm := w_nm w; w_nc := w_nc w; w_nd := w_nd w |}.
-Definition with_online (w : world) (l : list cid) : world :=
-  {| w_maps := w_maps w; w_codes := w_codes w; w_doms := w_doms w; w_online := l; w_nm := w_nm w; w_nc := w_nc w; w_nd := w_nd w |}.
+  {| w_maps := w_maps w; w_codes := w_codes w; w_doms := l; w_online := w_online w; w_bind := w_bind w; w_nm := w_nm w; w_nc := w_nc w; w_nd := w_nd w |}.
+(* the registry part of the world *)
+Definition with_reg (w : world) (online : list cid) (bind : list (N * cid)) : world :=
+  {| w_maps := w_maps w; w_codes := w_codes w; w_doms := w_doms w; w_online := online; w_bind := bind; w_nm := w_nm w; w_nc := w_nc w; w_nd := w_nd w |}.
 
 (* dns_handler.go getDefaultTargetClientID: first active SOCKS mapping in the client's index (listen or target side) *)
 Definition default_target (a : cid) (l : list mapping) : cid :=
@@ -182,7 +193,7 @@ Definition run (e : effect) (p : party) (a : cid) (w : world) (k : connkind) (c 
         let n := w_nc w in
         {| res_ok := true;
            res_world := {| w_maps := w_maps w; w_codes := w_codes w ++ [{| c_id := n; c_owner := a; c_act := 0 |}]; w_doms := w_doms w;
-                           w_online := w_online w; w_nm := w_nm w; w_nc := n + 1; w_nd := w_nd w |};
+                           w_online := w_online w; w_bind := w_bind w; w_nm := w_nm w; w_nc := n + 1; w_nd := w_nd w |};
            res_dm := []; res_dc := [n]; res_dd := []; res_deliv := [] |}
       else mk false w
   | ECodeList =>
@@ -197,7 +208,7 @@ Definition run (e : effect) (p : party) (a : cid) (w : world) (k : connkind) (c 
         {| res_ok := true;
            res_world := {| w_maps := w_maps w ++ [{| m_id := n; m_listen := a; m_target := c_owner x; m_socks := false; m_sent := 0; m_recv := 0 |}];
                            w_codes := update_code (fun y => {| c_id := c_id y; c_owner := c_owner y; c_act := a |}) i (w_codes w);
-                           w_doms := w_doms w; w_online := w_online w; w_nm := n + 1; w_nc := w_nc w; w_nd := w_nd w |};
+                           w_doms := w_doms w; w_online := w_online w; w_bind := w_bind w; w_nm := n + 1; w_nc := w_nc w; w_nd := w_nd w |};
            res_dm := [n]; res_dc := []; res_dd := []; res_deliv := [] |} end end
   | ETraffic =>
       match k_obj c with None => mk true w | Some i =>
@@ -232,7 +243,7 @@ Definition run (e : effect) (p : party) (a : cid) (w : world) (k : connkind) (c 
         let n := w_nd w in
         {| res_ok := true;
            res_world := {| w_maps := w_maps w; w_codes := w_codes w; w_doms := w_doms w ++ [{| d_id := n; d_owner := a |}];
-                           w_online := w_online w; w_nm := w_nm w; w_nc := w_nc w; w_nd := n + 1 |};
+                           w_online := w_online w; w_bind := w_bind w; w_nm := w_nm w; w_nc := w_nc w; w_nd := n + 1 |};
            res_dm := []; res_dc := []; res_dd := [n]; res_deliv := [] |}
       else mk false w
   | EDomDelete =>
@@ -243,8 +254,9 @@ Definition run (e : effect) (p : party) (a : cid) (w : world) (k : connkind) (c 
       {| res_ok := true; res_world := w; res_dm := []; res_dc := [];
          res_dd := map d_id (filter (fun d => d_owner d =? a) (w_doms w)); res_deliv := [] |}
   | EDisconnect =>
-      (* handleDisconnectCommand: closes the connection the packet arrived on, nothing else *)
-      mk true (with_online w (remove_cid self (w_online w)))
+      (* handleDisconnectCommand: CloseConnection of the connection the packet arrived on (its registry entry and the
+         clientIDMap entry of the identity it carries), nothing else *)
+      mk true (with_reg w (remove_cid self (w_online w)) (unbind_k k (w_bind w)))
   | ERespSink => mk true w
   end.
 
@@ -322,3 +334,69 @@ Definition pick (b : bool) (n : nat) : list row :=
 Definition table_of (f_socks f_traffic f_dns f_notify aux : bool) : list row :=
   common_rows ++ pick f_socks 0 ++ pick f_traffic 1 ++ pick f_dns 2 ++ pick f_dns 3
   ++ (if aux then [if f_notify then aux_row_current else aux_row_pinned] else []).
+
+(* ------------------------------------------------------------------------------------------------------------- *)
+(* histories on ONE long-lived session/executor: commands interleaved with registry events that change the       *)
+(* identity a connection carries (client_registry.go UpdateAuth incl. dropStaleIndexLocked; Unregister)          *)
+(* ------------------------------------------------------------------------------------------------------------- *)
+Inductive event :=
+| EvReauth (i : N) (c : cid)     (* connection #i (re-)authenticates as client c: connMap[i].ClientID := c, its old clientIDMap entry dropped *)
+| EvRemove (i : N).              (* connection #i leaves the registry (kick / stale cleanup window); its stream stays open *)
+
+Fixpoint insert_cid (c : cid) (l : list cid) : list cid :=
+  match l with [] => [c] | x :: l' => if c =? x then l else if c <? x then c :: l else x :: insert_cid c l' end.
+Fixpoint insert_bind (i : N) (c : cid) (l : list (N * cid)) : list (N * cid) :=
+  match l with
+  | [] => [(i, c)]
+  | (j, d) :: l' => if i =? j then (i, c) :: l' else if i <? j then (i, c) :: l else (j, d) :: insert_bind i c l'
+  end.
+
+Definition apply_event (ev : event) (w : world) : world :=
+  match ev with
+  | EvReauth i c =>
+      let old := match lookup_bind i (w_bind w) with Some o => o | None => 0 end in
+      with_reg w (insert_cid c (remove_cid old (w_online w))) (insert_bind i c (w_bind w))
+  | EvRemove i =>
+      let old := match lookup_bind i (w_bind w) with Some o => o | None => 0 end in
+      with_reg w (remove_cid old (w_online w)) (remove_bind i (w_bind w))
+  end.
+
+Inductive hstep := HCmd (k : connkind) (cl : claim) (c : cmd) | HEv (ev : event).
+
+(* the executor and the handlers keep no per-connection state: each command is executed against the world as it is
+   at the moment of dispatch *)
+Fixpoint run_history (tbl : list row) (w : world) (hs : list hstep) : list result * world :=
+  match hs with
+  | [] => ([], w)
+  | HCmd k cl c :: hs' => let r := exec tbl w k cl c in
+                          let '(rs, w') := run_history tbl (res_world r) hs' in (r :: rs, w')
+  | HEv ev :: hs' => run_history tbl (apply_event ev w) hs'
+  end.
+Definition world_after (tbl : list row) (w : world) (hs : list hstep) : world := snd (run_history tbl w hs).
+
+(* the seeded defect class: an executor that remembers the first non-zero identity it resolved for a connection id and
+   keeps using it for the handlers that read CommandContext.ClientID (HTTP domain create/delete/list, C2C notify) *)
+Definition uses_ctx_identity (e : effect) : bool :=
+  match e with EDomCreate | EDomDelete | EDomList | ENotify => true | _ => false end.
+Definition exec_memo (tbl : list row) (memo : list (N * cid)) (w : world) (k : connkind) (cl : claim) (c : cmd)
+  : result * list (N * cid) :=
+  match k, find_row tbl (k_type c) (k_resp c) with
+  | KConn i, Some r =>
+      match r_route r with
+      | RRegistry =>
+          let resolved := match lookup_bind i memo with Some a => a | None => conn_identity w k end in
+          let memo' := if resolved =? 0 then memo else insert_bind i resolved memo in
+          if uses_ctx_identity (r_eff r)
+          then ((if r_auth r && (resolved =? 0) then refuse (r_eff r) w k else run (r_eff r) (r_party r) resolved w k c), memo')
+          else (exec tbl w k cl c, memo')
+      | _ => (exec tbl w k cl c, memo)
+      end
+  | _, _ => (exec tbl w k cl c, memo)
+  end.
+Fixpoint run_history_memo (tbl : list row) (memo : list (N * cid)) (w : world) (hs : list hstep) : list result * world :=
+  match hs with
+  | [] => ([], w)
+  | HCmd k cl c :: hs' => let '(r, memo') := exec_memo tbl memo w k cl c in
+                          let '(rs, w') := run_history_memo tbl memo' (res_world r) hs' in (r :: rs, w')
+  | HEv ev :: hs' => run_history_memo tbl memo (apply_event ev w) hs'
+  end.
